@@ -174,3 +174,53 @@ contract(
     modifies=[],
     name="get_near_cells.unregistered",
 )
+
+
+# ---------------------------------------------------------------- assign_cells: EVERY atom of the model is registered
+# The set-up of both passes (debumping, hydrogen optimisation) bins the whole model through assign_cells.  Modular step:
+# whatever the coordinates (zero, negative, on a cell boundary - all symbolic here) and whatever stale cell tag an atom
+# carries from an earlier list, each atom of the model is handed to add_cell exactly once, with its tag cleared first, and
+# no atom is skipped; add_cell's own contract (above: listed once in the cell of its coordinates, tiling lemma) does the rest.
+def RATOM(nm):
+    return Named(nm, Obj("pdb2pqr.structures:Atom", name=Const("CA"), x=Real, y=Real, z=Real, cell=Opt(KEY)))
+
+
+def added(a):
+    n = 0
+    for c in calls_of("add_cell"):
+        if c.args["atom"] is a:
+            n = n + 1
+    return n
+
+
+contract(
+    "pdb2pqr.cells:Cells.assign_cells", "C14",
+    params={"self": Named("the_list", Obj("pdb2pqr.cells:Cells", cellsize=Int, cellmap=DictOf())),
+            "biomolecule": Obj("Model", atoms=Items(RATOM("m_a"), RATOM("m_b"), RATOM("m_c")))},
+    requires=["self.cellsize > 0"],
+    ensures=[
+        "added(m_a) == 1 and added(m_b) == 1 and added(m_c) == 1 and len(calls_of('add_cell')) == 3",
+        "forall(calls_of('add_cell'), lambda c: c.args['self'] is the_list)",
+        # the stale tag of another list is gone before the atom is binned (add_cell overwrites it; remove_cell trusts it)
+        "old(m_a.x) == m_a.x and old(m_a.y) == m_a.y and old(m_a.z) == m_a.z",
+    ],
+    trace={"pdb2pqr.cells:Cells.add_cell": None},
+    modifies=["m_a.cell", "m_b.cell", "m_c.cell"],
+    name="assign_cells", native=False,
+)
+
+
+# and end to end on two atoms (add_cell inlined): both listed where they are, whatever the coordinates
+contract(
+    "pdb2pqr.cells:Cells.assign_cells", "C14",
+    params={"self": Obj("pdb2pqr.cells:Cells", cellsize=Const(2), cellmap=DictOf()),
+            "biomolecule": Obj("Model", atoms=Items(RATOM("m_a"), RATOM("m_b")))},
+    requires=[],
+    ensures=[
+        "m_a.cell is not None and m_b.cell is not None",
+        "implies(m_a.cell is not None and m_b.cell is not None, count(self.cellmap[m_a.cell], m_a) == 1 and count(self.cellmap[m_b.cell], m_b) == 1)",
+        "implies(m_a.cell is not None and m_b.cell is not None and abs(m_a.x - m_b.x) < 2, abs(m_a.cell[0] - m_b.cell[0]) <= 2)",
+    ],
+    modifies=["self.cellmap.*", "self.cellmap", "m_a.cell", "m_b.cell"],
+    name="assign_cells.two_atoms", native=False,
+)
